@@ -37,6 +37,9 @@ func c17Gen(seed uint64, run int, tier string) *Case {
 		c.Cfg["nops"] = int64(r.Range(8, 80))
 	}
 	c.Stratum = fmt.Sprintf("dotu=%d", c.Cfg["dotu"])
+	if run%4 == 0 && c.Cfg["msize"] == 4096 {
+		c.Cfg["deep"] = 1 // the session ends with two failing requests on a path close to PATH_MAX
+	}
 	if run%4 == 2 {
 		// long-lived fids: several requests in a row through the same fid
 		c.Cfg["session"] = 1
@@ -500,7 +503,8 @@ func c17Exec(x *Ctx) {
 				if !ok {
 					return
 				}
-				rr := mut(&Msg{Type: Tcreate, Fid: f, Name: name, Perm: 0x80000000 | perm, Mode: 0})
+				// (perm bits without a POSIX counterpart -- temporary, exclusive-use, append-only -- may ride along: it is a mkdir all the same)
+				rr := mut(&Msg{Type: Tcreate, Fid: f, Name: name, Perm: 0x80000000 | uint32(r.Pick(0, 0, 0, 0x04000000, 0x20000000, 0x40000000)) | perm, Mode: 0})
 				if rr == nil || rr.M == nil {
 					return
 				}
@@ -798,6 +802,42 @@ func c17Exec(x *Ctx) {
 			}
 			if len(x.Res.Viol) > 0 {
 				break // the trees have diverged: later steps would only repeat it
+			}
+		}
+		if c.cfg("deep") != 0 && len(x.Res.Viol) == 0 && x.S.OSRate == 0 {
+			// a path close to PATH_MAX: the text of an error that names it does not fit into msize 4096, whatever the
+			// server does about the text, the error number is the one of the POSIX operation that failed
+			total := 4078
+			var comps []string
+			for left := total - len(A) - len("/full"); left > 2; {
+				n := 250
+				if left-1 < n {
+					n = left - 1
+				}
+				comps = append(comps, strings.Repeat(string(rune('a'+len(comps)%26)), n))
+				left -= n + 1
+			}
+			rel := filepath.Join(comps...)
+			ok := true
+			for _, root := range []string{A, B} {
+				if os.MkdirAll(filepath.Join(root, rel, "full"), 0o755) != nil || os.WriteFile(filepath.Join(root, rel, "full", "x"), []byte("x"), 0o644) != nil {
+					ok = false
+				}
+			}
+			if f, wok := walkTo(rel); ok && wok {
+				before := snapshotTree(A, false)
+				what := fmt.Sprintf("Tcreate(directory \"full\" over an existing one, %d bytes of path)", len(filepath.Join(A, rel, "full")))
+				if rr := mut(&Msg{Type: Tcreate, Fid: f, Name: "full", Perm: 0x80000000 | 0o755, Mode: 0}); rr != nil && rr.M != nil {
+					c17Outcome(x, rr.M, os.Mkdir(filepath.Join(B, rel, "full"), 0o755), what, before, A, B, "", dotu)
+				}
+				clunk(f)
+				if f2, wok := walkTo(filepath.Join(rel, "full")); wok {
+					what := "Tremove(a directory that is not empty, at the end of a path close to PATH_MAX)"
+					if rr := mut(&Msg{Type: Tremove, Fid: f2}); rr != nil && rr.M != nil {
+						c17Outcome(x, rr.M, os.Remove(filepath.Join(B, rel, "full")), what, before, A, B, "", dotu)
+					}
+				}
+				x.Probe("errors-naming-a-path-close-to-PATH_MAX")
 			}
 		}
 		finished = true
